@@ -25,6 +25,15 @@ func init() {
 			}
 			rep := &report.Report{}
 			file, _ := xparser.Parse("t.proto", source.NewFile("t.proto", src), rep)
+			for i := range rep.Diagnostics {
+				d := &rep.Diagnostics[i]
+				if d.Level() <= report.Error {
+					fmt.Printf("  diag level=%d %q primary=[%d,%d) %q\n", d.Level(), d.Message(), d.Primary().Start, d.Primary().End, src[max(0, d.Primary().Start-40):min(len(src), d.Primary().End+40)])
+				}
+				if d.Level() == report.ICE {
+					fmt.Printf("    notes=%v\n    debug=%.2500v\n", d.Notes(), d.Debug())
+				}
+			}
 			out, _ := printer.PrintFile(printer.Options{}, file)
 			i := 0
 			for i < len(src) && i < len(out) && src[i] == out[i] {
